@@ -205,6 +205,17 @@ CLAIMED["C16"] = dict(
     technique="Lean 4 theorems over a resource-ledger model + per-operation differential check (private-struct mask, ASan allocation hooks, /proc/self/fd, TMPDIR) and balance predicate on implementation runs",
     design_ref="DESIGN.md §7 C16")
 
+CLAIMED["C12"] = dict(
+    text="Proof (Lean 4) over a code-shaped model (SfModel/Meta.lean) of the string table (32 slots, replacement marks, start/end placement, software suffix through the 128-byte buffer, "
+         "store growth), the WAV LIST/INFO writer and parser, bext and cart (de)serialisation with the coding-history / tag-text normalisation (psf_strlcpy_crlf, added line end, added history line, "
+         "even size), the cue and smpl chunks and the accept/refuse guards of the SET calls: strings_store_inv (offsets inside the used store, used <= capacity, for every call sequence), "
+         "info_roundtrip, bext_roundtrip, cart_roundtrip, cue_roundtrip (get after re-open = normalise (set) under explicit limit hypotheses), late_or_unsupported_is_harmless. "
+         "Partial: the full statements are refuted by proved witnesses (2046-byte INFO text, 10 KiB bext bound, cue names, 127-byte software buffer, a refused 33rd sf_set_string erasing the old value) and "
+         "19 known-finding classes are replayed every run (cue names, smpl ranges/detune, AIFF INST, per-container string thresholds, header cache, bext 10 KiB, cart 16 KiB, RIFX endian switch, late re-set, "
+         "AIFF late replacement / sanitising / stale APPL bytes, slot exhaustion, second SFC_SET_CUE, software truncation). Correspondence sampled (seeded scripts: every string length class, UTF-8, "
+         "CR/LF variants, 0..100 cues, 0..16 loops) for WAV/WAVEX/RF64; AIFF, CAF, RIFX, W64, AU are covered by the property predicate on the library's own transcripts only (their writers/parsers are not modelled).",
+    technique="Lean 4 theorems over a hand-written model + sampled correspondence (sfmodel meta vs sfh under ASan) + property predicate (get after re-open = normalise(set), audio unchanged) on the implementation transcript",
+    design_ref="DESIGN.md §7 C12")
 
 def main():
     checks = []
